@@ -8,7 +8,7 @@ import z3
 from . import ctx as C
 from .symex import Unsupported
 
-MODULES = ["c05", "c03", "c12", "builders", "c19", "c08", "kernels", "printer", "serde", "c06", "c11", "c15", "c16", "scanners", "c10", "options"]
+MODULES = ["c05", "c03", "c12", "builders", "c19", "c08", "kernels", "printer", "serde", "c06", "c11", "c15", "c16", "scanners", "c10", "options", "shape", "conswalk", "errpos", "utf8dec"]
 
 
 class Claim:
@@ -137,7 +137,7 @@ DEFAULT_CONFIRM = {
     "c08_token_dispatch": ("tokens", "numbers"), "c08_list_protocol": ("lists", "tokens"), "c03_builder_depth": ("lists",),
     "c01_byte_list": ("lists",), "c10_builder_lockstep": ("value_vs_datum", "lists_datum", "tokens_datum", "lists", "tokens"),
     "c10_top_lockstep": ("value_vs_datum", "lists_datum", "tokens_datum", "lists", "toplevel"),
-    "c12_whitespace": ("lists", "toplevel"), "c12_adapters": ("toplevel", "lists"),
+    "c12_whitespace": ("lists", "toplevel"), "c12_adapters": ("iteration", "toplevel", "lists"),
     "c19_tables": ("truncation",), "c19_truncation_numbers": ("truncation", "numbers"), 
     "c03_depth_next_value": ("lists",), "c03_depth_next_datum": ("lists",), "c03_initial_depth": ("lists",),
     "c05_num_literal_step": ("numbers",), "c05_num_tail": ("numbers",), "c05_long_integer_step": ("numbers",), "c05_decimal_step": ("numbers",),
